@@ -312,13 +312,38 @@ pub fn decompress(
                     ))),
                 ))
             })? as usize;
+            // The decompressor allocates `uncomp_len` bytes up front, so a declared size that
+            // no LZ4 block of this length can possibly expand to must be rejected beforehand
+            // (an LZ4 sequence encodes at most 255 output bytes per input byte).
+            if uncomp_len > comp_body.len().saturating_mul(255).saturating_add(64) {
+                return Err(FrameBodyExtensionsParseError::Lz4DecompressError(Arc::new(
+                    std::io::Error::new(
+                        std::io::ErrorKind::InvalidData,
+                        "declared uncompressed size is impossible for the compressed size",
+                    ),
+                )));
+            }
             let uncomp_body = lz4_flex::decompress(comp_body, uncomp_len)
                 .map_err(|err| FrameBodyExtensionsParseError::Lz4DecompressError(Arc::new(err)))?;
             Ok(uncomp_body)
         }
-        Compression::Snappy => snap::raw::Decoder::new()
-            .decompress_vec(comp_body)
-            .map_err(|err| FrameBodyExtensionsParseError::SnapDecompressError(Arc::new(err))),
+        Compression::Snappy => {
+            // Same as above: `decompress_vec` allocates the declared size up front.
+            // A Snappy copy element encodes at most 64 output bytes in no less than 2 input bytes.
+            let uncomp_len = snap::raw::decompress_len(comp_body)
+                .map_err(|err| FrameBodyExtensionsParseError::SnapDecompressError(Arc::new(err)))?;
+            if uncomp_len > comp_body.len().saturating_mul(64).saturating_add(64) {
+                return Err(FrameBodyExtensionsParseError::SnapDecompressError(
+                    Arc::new(std::io::Error::new(
+                        std::io::ErrorKind::InvalidData,
+                        "declared uncompressed size is impossible for the compressed size",
+                    )),
+                ));
+            }
+            snap::raw::Decoder::new()
+                .decompress_vec(comp_body)
+                .map_err(|err| FrameBodyExtensionsParseError::SnapDecompressError(Arc::new(err)))
+        }
     }
 }
 
